@@ -37,6 +37,21 @@ CLAIMED = {
  "C18": ("other", "§7 C18",
   "Thread confinement by frames: every heap store in every runtime function is checked against the function's modifies clause (frame obligations): no store to a grammar node, to a package-level variable or outside the parser's own state and fresh allocations; the only shared object is statePool, reached through Get/Put only, and a map is proved cleared before Put and never used after it.",
   "no schedule is explored; confinement implies race freedom by a standard meta-theorem; sync.Pool is trusted to be goroutine-safe"),
+ "C07": ("proof", "§7 C07",
+  "Every implementation of InitialNames is verified against one First-set equation per node kind (edges across flagged-nullable prefixes, through & and ! predicates, through both arms of a recovery expression), every IsNullable against the flag it must report, and every NullableVisit against coverage obligations (must-call: each child whose flags InitialNames later reads is visited; a choice visits all alternatives). MakeFirstGraph is proved to build exactly the First edges of every rule, ComputeLeftRecursives to report left recursion exactly when a component has several members or a self-loop, buildParser to turn an analysis error or unsupported left recursion into a build error.",
+  "Tarjan SCC and cycle enumeration (scc.go, recursive closures over maps) are outside the verified subset: their contracts are assumed; 'no cycle in the First graph implies no same-offset re-entry at run time' is Ford's well-formedness theorem (meta). Defects F5a/F5b found by these obligations were repaired by fix: commits."),
+ "C09": ("other", "§7 C09",
+  "Local obligations of the grammar optimizer: cloneExpr returns a fresh node of the same kind for every expression kind (no node shared with the inlined rule), optimizeRule only inlines rules that refer to no other rule and never dereferences an undefined rule, the class/literal merge arms only build unions of non-inverted classes with equal case sensitivity and only concatenate literals of equal case sensitivity, cleanupCharClassMatcher keeps chars/ranges/classes as sets and keeps first occurrences in order.",
+  "the in-place slice surgery of the optimize visitor (aliased backing arrays) is outside the value model of slices: language preservation of the whole rewriting and the label-scope interaction of inlining (defect F7c) are not decided; Walk assumes visitors keep the tree well-formed"),
+ "C13": ("other", "§7 C13",
+  "Zero-annotation safety obligations (nil dereference, index, slice bounds, nil-map write, type assertion, explicit panic) are discharged for Walk, cloneExpr, optimizeRule(s), cleanupCharClassMatcher, every NullableVisit/IsNullable/InitialNames, MakeFirstGraph, ComputeNullables, ComputeLeftRecursives, findLeader, PrepareGrammar, rangeTable, BasicLatinLookup under the AST well-formedness the front-end establishes (which does NOT include 'referenced rules are defined'); buildParser rejects what the analysis rejects.",
+  "main()'s exit paths, the front-end's own parse and termination of the optimizer fixpoint are not under contract; the optimize visitor's slice surgery is outside the subset. Defects F9a/F9b were repaired by fix: commits."),
+ "C15": ("proof", "§7 C15",
+  "BasicLatinLookup is verified for symbolic chars/ranges/classes of arbitrary length: for case-sensitive classes the table equals the general matching procedure on all 128 runes (loop invariants with quantifiers, no enumeration); for case-insensitive classes every Basic Latin member and both of its case forms are hits; the runtime fast path and the general path of parseCharClassMatcher both satisfy the same class semantics given that table.",
+  "known finding F10 (case-insensitive classes: table and general procedure disagree) is excused only inside the region ignoreCase and while its witness reproduces; unicode.Is is uninterpreted, ToLower/ToUpper/IsLower facts on Basic Latin are computed from the toolchain's tables at check time"),
+ "C19": ("proof", "§7 C19",
+  "Map-order independence of the functions under contract: findLeader's result is proved to be the least element of the candidate set under the arbitrary-enumeration semantics of map range (every iteration order), MakeFirstGraph's result is a function of the rule table, cleanupCharClassMatcher keeps first occurrences in their original order.",
+  "ComputeNullables' flags depend on visit order inside cycles (defect F11, demonstrated in DESIGN §9, not expressible as a discharged obligation); SCC/cycle enumeration order is outside the subset (results are compared as sets by the assumed contract)"),
 }
 
 NOT_APPLICABLE = {
